@@ -325,6 +325,8 @@ func (e *Env) modelDecodeOne(l *facts.Level, rule string) *decodeOneModel {
 			}
 			if !okZero {
 				bad(lf, "arm-value", "metric "+n+": accepted without testing the parsed value against the type's unknown/invalid constant")
+			} else {
+				c.Ok("accept-path", fmt.Sprintf("%s case %q", who, n), e.P.Pos(lf.Pos), "accepted only if the token has two non-empty ':'-parts, the name was not seen before, and "+nameOf(arm.Parser)+"(value) is not the unknown constant; then field "+fv.Name()+" and names[name] are the only writes")
 			}
 			continue
 		}
@@ -416,6 +418,7 @@ func (e *Env) modelDecodeOne(l *facts.Level, rule string) *decodeOneModel {
 			}
 		}
 		m.Rejects = append(m.Rejects, ri)
+		c.Ok("reject-path", fmt.Sprintf("%s %s path returning at %s", who, ri.Kind, e.P.Pos(lf.Pos)), e.P.Pos(lf.Pos), "rejected with an error; nothing recorded in names")
 	}
 	m.ok = allOK
 	return m
